@@ -229,9 +229,9 @@ pub fn run(a: &Args) -> Ctx {
     // several exactly-full records in one chain are what makes a relocation cascade towards the bucket head
     // the fourth alphabet: records of 897..1017 estimated bytes live in the 1024-byte slot, whose size field is one
     // byte wider than the estimate assumes (1000, 1005, 900), next to exactly-full short ones
-    // the fifth: keys of 1142 bytes, whose records (1151 bytes with two-byte offsets) leave one byte of slack in their
+    // the fifth: keys of 1143/1144 bytes, whose records (1151 bytes with two-byte offsets; 1144 for a chain tail) leave one byte of slack in their
     // 1152-byte slot on the shared first-fit list: one byte more in an offset field and they move to a 1280-byte slot
-    let alphabets: [&[usize]; 5] = [&[10, 10, 10, 11, 9], &[10, 18, 10, 18, 11], &[9, 10, 19, 18, 10], &[1000, 1005, 10, 900, 11], &[1142, 1142, 10, 1142, 11]];
+    let alphabets: [&[usize]; 5] = [&[10, 10, 10, 11, 9], &[10, 18, 10, 18, 11], &[9, 10, 19, 18, 10], &[1000, 1005, 10, 900, 11], &[1143, 1143, 10, 1144, 11]];
     // shards 0..17 take the first alphabet on all 18 start images, 18..35 the second, and so on
     let lens_all = alphabets[((a.shard / variants.len()) % 5) as usize];
     let nk = 4 + ((salt / 3) % 2) as usize;
